@@ -12,6 +12,7 @@ code -> spec : after every step the real arrays are projected onto the spec's va
 Python never judges a result; it only maps abstract <-> concrete and records.
 """
 import hashlib
+import json
 import random
 import sys
 import warnings
@@ -31,10 +32,26 @@ MACHINE_LE = sys.byteorder == "little"
 MULTI = ["i2", "i4", "i8", "u2", "u4", "u8", "f2", "f4", "f8", "f16", "c8", "c16", "c32"]
 SINGLE = ["i1", "u1"]
 STRS = ["S1", "S3", "S8"]
-TYPES = {"M": MULTI, "B": SINGLE, "S": STRS}
+TYPES = {"M": MULTI, "B": SINGLE, "S": STRS, "N": MULTI}     # N: nested record [('p', multi-byte), ('q', 'S2')]
 SUBSHAPES = [(), (2,), (2, 2), (1,)]
 SHAPES = [(3,), (), (2, 2), (1,), (1, 3), (4,)]
 NAMES = ["a", "b", "c", "d", "e", "f", "g", "h"]
+
+# memory layouts: array shapes each admits (a strided / reversed axis needs >= 2 elements, F-order needs 2 x 2)
+# and the number of concrete variants (see Concrete._embed)
+LAYOUTS = ["contig", "slice", "strided", "reversed", "column", "fortran", "zerod", "recview"]
+LSHAPES = {
+    "contig": SHAPES,
+    "slice": [(3,), (2, 2), (1,), (1, 3)],
+    "strided": [(3,), (2, 2), (2,), (2, 3)],
+    "reversed": [(3,), (2, 2), (2,), (4,)],
+    "column": [(3,), (2, 2), (2,)],
+    "fortran": [(2, 2), (2, 3), (3, 2)],
+    "zerod": [()],
+    "recview": [(3,), (), (2, 2), (1, 3)],
+}
+NVAR = {"contig": 1, "slice": 2, "strided": 3, "reversed": 3, "column": 3, "fortran": 3, "zerod": 2, "recview": 3}
+NONCONTIG = {"strided", "reversed", "column"}        # + recview of a plain array (BOLayContiguous in ByteOrder.tla)
 
 FN = {"native": "to_native", "big": "to_big_endian", "little": "to_little_endian", "swap": "byteswap",
       "rnative": "to_native_inplace"}
@@ -47,18 +64,21 @@ def _spell(t, sp):
 
 
 def concretise(init, conc):
-    """abstract array (plain, kinds, spell) + concretisation number -> field list
-    [(name, base type, subshape)], array shape"""
+    """abstract array (plain, kinds, spell, layout) + concretisation number -> field list
+    [(name, base type, subshape, kind)], array shape, layout variant"""
     kinds = init["kinds"]
-    shape = SHAPES[conc % len(SHAPES)]
-    q = conc // len(SHAPES)
+    layout = init.get("layout", "contig")
+    shapes = LSHAPES[layout]
+    shape = shapes[conc % len(shapes)]
+    q = conc // len(shapes)
+    var = (q // 13) % NVAR[layout]
     fields = []
     for i, k in enumerate(kinds):
         cat = TYPES[k]
         t = cat[(q + 5 * i) % len(cat)]
         sub = () if init["plain"] else SUBSHAPES[(q // len(cat) + i) % len(SUBSHAPES)]
-        fields.append((NAMES[i], t, sub))
-    return fields, shape
+        fields.append((NAMES[i], t, sub, k))
+    return fields, shape, var
 
 
 def logical_values(t, m):
@@ -79,32 +99,141 @@ def logical_values(t, m):
     raise MachineryError("no logical values for " + t)
 
 
+def _cover(addr0, v, mask):
+    """mark the bytes of the buffer starting at address addr0 that are elements of the (leaf fields of the) view v"""
+    if v.dtype.names is not None:
+        for n in v.dtype.names:
+            _cover(addr0, v[n], mask)
+        return
+    off = np.array([v.__array_interface__["data"][0] - addr0], dtype=np.int64)
+    for dim, st in zip(v.shape, v.strides):
+        off = (off[:, None] + np.arange(dim, dtype=np.int64) * st).reshape(-1)
+    if off.size:
+        mask[(off[:, None] + np.arange(v.dtype.itemsize)).reshape(-1)] = True
+
+
 class Concrete:
     """a real array built for an abstract case, with what the projection needs"""
 
     def __init__(self, init, conc):
         self.init = init
         self.plain = bool(init["plain"])
-        self.fields, self.shape = concretise(init, conc)
+        self.layout = init.get("layout", "contig")
+        self.fields, self.shape, self.var = concretise(init, conc)
         sp = init["spell"]
-        nelem = int(np.prod(self.shape, dtype=int)) if self.shape else 1
-        self.enc = []        # per field: (little-endian bytes, big-endian bytes) of the logical values
+        shape = self.shape
+        nelem = int(np.prod(shape, dtype=int)) if shape else 1
+        self.enc = []        # per field: (little-endian bytes, big-endian bytes[, bytes of the string member]) of the logical values
         if self.plain:
-            name, t, _ = self.fields[0]
-            logical = logical_values(t, nelem).reshape(self.shape)
-            self.a0 = logical.astype(np.dtype(_spell(t, sp)))
+            name, t, _, _ = self.fields[0]
+            logical = logical_values(t, nelem).reshape(shape)
+            self.parent, self.a0 = self._embed(np.dtype(_spell(t, sp)), shape)
+            self.a0[...] = logical                               # value-preserving assignment
             self.enc.append(self._encodings(logical))
         else:
-            nat = np.dtype([(n, t, s) if s else (n, t) for n, t, s in self.fields])
-            spelled = np.dtype([(n, _spell(t, sp), s) if s else (n, _spell(t, sp)) for n, t, s in self.fields])
-            logical = np.zeros(self.shape, dtype=nat)
-            for n, t, s in self.fields:
+            def descr(order):
+                out = []
+                for n, t, s, k in self.fields:
+                    ft = [("p", _spell(t, order)), ("q", "S2")] if k == "N" else _spell(t, order)
+                    out.append((n, ft, s) if s else (n, ft))
+                return out
+            nat = np.dtype(descr(""))
+            logical = np.zeros(shape, dtype=nat)
+            self._descr = descr(sp)
+            self.parent, self.a0 = self._embed(np.dtype(self._descr), shape)
+            for n, t, s, k in self.fields:
                 per = int(np.prod(s, dtype=int)) if s else 1
-                logical[n][...] = logical_values(t, nelem * per).reshape(self.shape + s)
-            self.a0 = np.zeros(self.shape, dtype=spelled)
-            for n, t, s in self.fields:
-                self.a0[n][...] = logical[n]             # value-preserving assignment
-                self.enc.append(self._encodings(logical[n]))
+                if k == "N":
+                    logical[n]["p"][...] = logical_values(t, nelem * per).reshape(shape + s)
+                    logical[n]["q"][...] = logical_values("S2", nelem * per).reshape(shape + s)
+                    self.a0[n]["p"][...] = logical[n]["p"]
+                    self.a0[n]["q"][...] = logical[n]["q"]
+                    self.enc.append(self._encodings(logical[n]["p"]) + (logical[n]["q"].tobytes(),))
+                else:
+                    logical[n][...] = logical_values(t, nelem * per).reshape(shape + s)
+                    self.a0[n][...] = logical[n]
+                    self.enc.append(self._encodings(logical[n]))
+        if self.a0.shape != tuple(shape):
+            raise MachineryError("layout %s/%d built shape %s for %s" % (self.layout, self.var, self.a0.shape, shape))
+        # the parent buffer as raw memory; the bytes that are not elements of a0 get a noise pattern and must stay
+        p = self.parent
+        self.mem = (p if p.flags.c_contiguous else p.T).reshape(-1).view(np.uint8)
+        if not np.shares_memory(self.mem, p) or self.mem.size != p.nbytes:
+            raise MachineryError("no raw view of the parent buffer")
+        mask = np.zeros(self.mem.size, dtype=bool)
+        _cover(self.mem.__array_interface__["data"][0], self.a0, mask)
+        self.outside = np.flatnonzero(~mask)
+        self.mem[self.outside] = ((self.outside * 7 + 3) % 251 + 1).astype(np.uint8)
+        self.rest0 = self.mem[self.outside].copy()
+        self.pdtype0 = self.parent.dtype
+
+    def _embed(self, dt, S):
+        """(parent, a0): a zeroed parent buffer and the array of dtype dt and shape S laid out in it as the layout says"""
+        lay, var = self.layout, self.var
+        z = np.zeros
+        if lay == "contig":
+            p = z(S, dt)
+            return p, p
+        if lay == "slice":                                   # contiguous window of a longer buffer
+            lead = 2 if var == 0 else 0
+            p = z((S[0] + 3,) + S[1:], dt)
+            return p, p[lead:lead + S[0]]
+        if lay == "strided":                                 # a[1::2], a[1::3], b[1::2, ::2]
+            if var == 2 and len(S) == 2:
+                p = z((1 + 2 * S[0], 2 * S[1]), dt)
+                return p, p[1::2, ::2]
+            step = 2 + (var % 2)
+            p = z((1 + step * S[0],) + S[1:], dt)
+            return p, p[1::step]
+        if lay == "reversed":                                # a[::-1], a[::-2], b[:, ::-1] / a[-2::-3]
+            if var == 0:
+                p = z(S, dt)
+                return p, p[::-1]
+            if var == 1:
+                p = z((2 * S[0],) + S[1:], dt)
+                return p, p[::-2]
+            if len(S) == 2 and S[1] >= 2:
+                p = z(S, dt)
+                return p, p[:, ::-1]
+            p = z((3 * S[0],) + S[1:], dt)
+            return p, p[-2::-3]
+        if lay == "column":                                  # b[..., k] of an array one dimension up
+            p = z(S + (3,), dt)
+            return p, p[..., var]
+        if lay == "fortran":                                 # F-ordered owner, transpose of a C array, window of an F buffer
+            if var == 0:
+                p = z(S, dt, order="F")
+                return p, p
+            if var == 1:
+                p = z(S[::-1], dt)
+                return p, p.T
+            p = z((S[0], S[1] + 2), dt, order="F")
+            return p, p[:, 1:1 + S[1]]
+        if lay == "zerod":                                   # 0-d window of a 1-d / 2-d buffer
+            if var == 0:
+                p = z((3,), dt)
+                return p, p[1, ...]
+            p = z((2, 2), dt)
+            return p, p[1, 0, ...]
+        if lay == "recview":                                 # field(s) of a larger record
+            if self.plain:
+                if var == 2 and len(S) >= 1:                 # a sub-array column
+                    p = z(S[:-1], np.dtype([("pre", "u1"), ("x", dt, (S[-1],)), ("post", "<i4")]))
+                elif var == 1:
+                    p = z(S, np.dtype([("pre", "<f4"), ("x", dt), ("post", "u1")]))
+                else:
+                    p = z(S, np.dtype([("pre", "S3"), ("x", dt), ("post", ">i2")]))
+                return p, p["x"]
+            d = list(self._descr)
+            if var == 0:
+                d = [("pre", "S3")] + d + [("post", ">i2")]
+            elif var == 1:
+                d = [("pre", "<f4")] + d[:1] + [("mid", ">u2")] + d[1:]
+            else:
+                d = d + [("post", "<i8")]
+            p = z(S, np.dtype(d))
+            return p, p[list(dt.names)]
+        raise MachineryError("unknown layout " + lay)
 
     @staticmethod
     def _encodings(x):
@@ -114,10 +243,23 @@ class Concrete:
             return raw, raw
         return x.astype(b.newbyteorder("<")).tobytes(), x.astype(b.newbyteorder(">")).tobytes()
 
+    def leaf(self, x, i):
+        """the array holding the byte-ordered data of abstract field i of x (None if the structure is gone)"""
+        if self.plain:
+            return x
+        if x.dtype.names is None or i >= len(x.dtype.names):
+            return None
+        v = x[x.dtype.names[i]]
+        if i < len(self.fields) and self.fields[i][3] == "N":
+            return v["p"] if v.dtype.names == ("p", "q") else None
+        return v
+
     def field_views(self, x):
         if self.plain:
             return [x]
-        return [x[n] for n in x.dtype.names] if x.dtype.names else []
+        if x.dtype.names is None:
+            return []
+        return [v for v in (self.leaf(x, i) for i in range(len(x.dtype.names))) if v is not None]
 
     def project_array(self, x):
         """one real array -> [decl, phys, sig, shp] of the spec"""
@@ -125,34 +267,64 @@ class Concrete:
             return {"decl": [], "phys": [], "sig": "not-an-array:" + type(x).__name__, "shp": ""}
         if self.plain != (x.dtype.names is None):
             return {"decl": [], "phys": [], "sig": "plain/structured changed", "shp": str(x.shape)}
-        views = self.field_views(x)
+        nf = 1 if self.plain else len(x.dtype.names)
         decl, phys, sig = [], [], []
-        for i, v in enumerate(views):
-            b = v.dtype.base
-            decl.append(b.byteorder)
+        for i in range(nf):
+            v = self.leaf(x, i)
             name = "" if self.plain else x.dtype.names[i]
             sub = "" if self.plain else str(x.dtype.fields[name][0].shape)
-            sig.append("%s:%s%d:%s" % (name, b.kind, b.itemsize, sub))
+            if v is None:
+                decl.append("?")
+                phys.append("corrupt")
+                sig.append("%s:?:%s" % (name, sub))
+                continue
+            b = v.dtype.base
+            nested = (not self.plain) and x.dtype.fields[name][0].base.names is not None
+            decl.append(b.byteorder)
+            sig.append("%s:%s%s%d:%s" % (name, "N/" if nested else "", b.kind, b.itemsize, sub))
             if i < len(self.enc):
                 raw = v.tobytes()
-                le, be = self.enc[i]
+                e = self.enc[i]
                 if b.itemsize == 1 or b.kind == "S":
-                    phys.append("|" if raw == le else "changed")
+                    phys.append("|" if raw == e[0] else "changed")
+                elif len(e) == 3 and x[name]["q"].tobytes() != e[2]:
+                    phys.append("corrupt")
                 else:
-                    phys.append("<" if raw == le else ">" if raw == be else "corrupt")
+                    phys.append("<" if raw == e[0] else ">" if raw == e[1] else "corrupt")
             else:
                 phys.append("corrupt")
         return {"decl": decl, "phys": phys, "sig": ";".join(sig), "shp": str(tuple(x.shape))}
 
+    def rest(self):
+        """the bytes of the parent buffer outside the initial array, and the parent's dtype"""
+        if self.parent is not self.a0 and (self.parent.dtype != self.pdtype0 or str(self.parent.dtype) != str(self.pdtype0)):
+            return "changed"
+        return "intact" if np.array_equal(self.mem[self.outside], self.rest0) else "changed"
+
+    def lay(self):
+        a = self.a0
+        return {"cc": bool(a.flags.c_contiguous), "fc": bool(a.flags.f_contiguous), "owns": bool(a.flags.owndata),
+                "neg": bool(any(st < 0 for st in a.strides)), "nd": int(a.ndim)}
+
+
+def _leaf_bytes(x, out):
+    if x.dtype.names is None:
+        out.append(x.tobytes())
+    else:
+        for n in x.dtype.names:          # field by field: padding of a record view is not data
+            _leaf_bytes(x[n], out)
+
 
 def _digest(x):
     try:
-        return hashlib.blake2b(x.tobytes(), digest_size=6).hexdigest()
+        out = []
+        _leaf_bytes(x, out)
+        return hashlib.blake2b(b"".join(out), digest_size=6).hexdigest()
     except Exception:  # noqa
         return "?"
 
 
-def observe_state(cc, objs, res, err="none"):
+def observe_state(cc, objs, res, err="none", first=False):
     import esutil.numpy_util as nu
     import esutil.recfile.Util as ru
     arrs = []
@@ -163,6 +335,9 @@ def observe_state(cc, objs, res, err="none"):
             if isinstance(x, np.ndarray) and isinstance(objs[i], np.ndarray) and np.shares_memory(objs[i], x):
                 grp = i
                 break
+        else:
+            if j > 0 and isinstance(x, np.ndarray) and np.shares_memory(cc.parent, x):
+                grp = 0                                # somewhere else in the initial array's parent buffer
         p["grp"] = grp + 1
         p["hash"] = _digest(x) if isinstance(x, np.ndarray) else "?"
         arrs.append(p)
@@ -177,7 +352,9 @@ def observe_state(cc, objs, res, err="none"):
                 pred["rlittle"].append(bool(ru.is_little_endian(v.dtype)))
         except Exception as e:  # noqa
             pred = {"err": type(e).__name__, "big": [], "little": [], "rlittle": []}
-        if cur.dtype.names is not None:
+        # descriptor strippers: flat descriptors only (a nested record's or a padded record view's descr is outside
+        # what the helpers are documented for, and the statement is silent on them)
+        if cur.dtype.names is not None and cc.layout != "recview" and not any(f[3] == "N" for f in cc.fields):
             for fn, call in (("numpy_util.descr_to_native", lambda: nu.descr_to_native(cur.dtype.descr)),
                              ("recfile.Util.remove_dtype_byteorder", lambda: ru.remove_dtype_byteorder(cur.dtype))):
                 try:
@@ -188,7 +365,10 @@ def observe_state(cc, objs, res, err="none"):
                     dn.append({"fn": fn, "err": "none", "decl": decl, "sig": sig})
                 except Exception as e:  # noqa
                     dn.append({"fn": fn, "err": type(e).__name__, "decl": [], "sig": ""})
-    return {"res": res + 1, "err": err, "arrs": arrs, "pred": pred, "dn": dn}
+    st = {"res": res + 1, "err": err, "arrs": arrs, "rest": cc.rest(), "pred": pred, "dn": dn}
+    if first:
+        st["lay"] = cc.lay()
+    return st
 
 
 def run_chain(args):
@@ -199,7 +379,7 @@ def run_chain(args):
     cc = Concrete(init, conc)
     objs = [cc.a0]
     res = 0
-    st = [observe_state(cc, objs, res)]
+    st = [observe_state(cc, objs, res, first=True)]
     with warnings.catch_warnings():
         warnings.simplefilter("ignore")
         for op in ops:
@@ -224,21 +404,38 @@ def run_chain(args):
                     objs.append(out)
                     res = len(objs) - 1
             st.append(observe_state(cc, objs, res, err))
-    return {"id": rid, "kinds": init["kinds"], "spell": init["spell"], "plain": cc.plain, "ops": ops, "st": st,
-            "conc": conc, "dtype": str(cc.a0.dtype), "shape": list(cc.shape)}
+    return {"id": rid, "kinds": init["kinds"], "spell": init["spell"], "plain": cc.plain, "layout": cc.layout, "ops": ops,
+            "st": st, "conc": conc, "dtype": str(cc.a0.dtype), "shape": list(cc.shape), "variant": cc.var}
 
 
 # ---- classification of rejected steps (signatures) ---------------------------------------
+def layout_class(rec):
+    """'' for an array owning its C-contiguous buffer, else whether numpy flags the window contiguous"""
+    lay = rec.get("layout", "contig")
+    if lay == "contig":
+        return ""
+    if lay in NONCONTIG or (lay == "recview" and rec["plain"]):
+        return "@noncontiguous_view"
+    return "@contiguous_view"
+
+
 def struct_class(rec):
     kinds = rec["kinds"]
     if rec["plain"]:
         return "plain:" + kinds[0]
     nm = sum(1 for k in kinds if k == "M")
-    if nm == len(kinds):
-        return "struct:all_multibyte"
-    if nm == 0:
-        return "struct:no_multibyte"
-    return "struct:multibyte+nobyteorder_field"
+    if "N" in kinds:
+        c = "struct:nested_record+multibyte" if nm else "struct:multibyte_only_in_nested_record"
+    elif nm == len(kinds):
+        c = "struct:all_multibyte"
+    elif nm == 0:
+        c = "struct:no_multibyte"
+    else:
+        c = "struct:multibyte+nobyteorder_field"
+    return c
+
+
+TRACE_KEYS = ("id", "kinds", "spell", "layout", "plain", "ops", "st")
 
 
 def judge(ctx, recs, what, pending=None):
@@ -246,7 +443,7 @@ def judge(ctx, recs, what, pending=None):
     shortest failing chain of each signature is reported first)"""
     emit = pending if pending is not None else []
     rejects = tracecheck.validate(ctx, "ByteOrderTrace.tla",
-                                  [{k: r[k] for k in ("id", "kinds", "spell", "ops", "st")} for r in recs],
+                                  [{k: r[k] for k in TRACE_KEYS} for r in recs],
                                   what=what, constants={"MachineLE": MACHINE_LE})
     byid = {r["id"]: r for r in recs}
     for rid in sorted(rejects):
@@ -266,112 +463,183 @@ def judge(ctx, recs, what, pending=None):
                 entry = "numpy_util.is_big_endian/is_little_endian"
             else:
                 entry = ENTRY[r["ops"][k - 1]["fn"]] if k >= 1 else "initial"
-            case = {"kind": "chain", "init": {"plain": r["plain"], "kinds": r["kinds"], "spell": r["spell"]},
-                    "ops": r["ops"][:k],
-                    "conc": r["conc"], "dtype": r["dtype"], "shape": r["shape"], "failing_step": k, "clause": clause}
-            emit.append((len(case["ops"]), rid, "%s|%s|%s" % (entry, clause, struct_class(r)),
-                         "byte-order conversion outcome not allowed by ByteOrder.tla: step %d (%s) fails clause %s on %s%s"
-                         % (k, entry, clause, r["dtype"], tuple(r["shape"])), case))
+            case = {"kind": "chain", "init": {"plain": r["plain"], "kinds": r["kinds"], "spell": r["spell"], "layout": r["layout"]},
+                    "ops": r["ops"][:k], "conc": r["conc"], "dtype": r["dtype"], "shape": r["shape"],
+                    "layout_variant": r["variant"], "failing_step": k, "clause": clause}
+            emit.append((len(case["ops"]), rid, ("%s|%s|%s" % (entry, clause, struct_class(r)), layout_class(r)),
+                         "byte-order conversion outcome not allowed by ByteOrder.tla: step %d (%s) fails clause %s on %s%s, layout %s/%d"
+                         % (k, entry, clause, r["dtype"], tuple(r["shape"]), r["layout"], r["variant"]), case))
     if pending is None:
         flush(ctx, emit)
     return rejects
 
 
 def flush(ctx, pending):
-    for _, _, sig, what, case in sorted(pending, key=lambda t: (t[0], t[1])):
-        ctx.violation(sig, what, case)
+    """the layout class is part of a signature only when the layout is what triggers the failure: i.e. when the same
+    (entry point, clause, structure) never fails on an array that owns its C-contiguous buffer"""
+    anywhere = {sig for _, _, (sig, lc), _, _ in pending if lc == ""}
+    for _, _, (sig, lc), what, case in sorted(pending, key=lambda t: (t[0], t[1])):
+        ctx.violation(sig if sig in anywhere else sig + lc, what, case)
 
 
 # ---- bounds ---------------------------------------------------------------------------
+ALLSP = {"<", ">", "=", "|"}
+ALLK = {"M", "B", "S", "N"}
+FLAT = {"M", "B", "S"}
+VIEWS = set(LAYOUTS) - {"contig"}
+BASE = dict(WithPlain=True, Kinds=ALLK, Need=set(), Spells=ALLSP, Layouts={"contig"}, InplaceFirst=False)
+
+
 def model_runs(tier):
-    """(constants, replication) of the TLC export runs; together they make the bounded space"""
-    allsp = {"<", ">", "=", "|"}
+    """(constants, replication) of the TLC export runs; together they make the bounded space.
+    replication: "sweep" = every concrete type x every array shape; "vsweep" = every concrete type, layout variant and
+    shape rotating with it ("vsweep*" = type x variant); n = n concretisations rotating through the catalogue"""
+    def c(**kw):
+        return dict(BASE, **kw)
     if tier == "quick":
         return [
-            (dict(MinFields=1, MaxFields=1, WithPlain=True, Spells=allsp, MaxDepth=1), "sweep"),   # every concrete type / shape
-            (dict(MinFields=1, MaxFields=2, WithPlain=True, Spells=allsp, MaxDepth=2), 1),
-            (dict(MinFields=3, MaxFields=3, WithPlain=False, Spells=allsp, MaxDepth=1), 3),
+            # one step, one field: every concrete type / shape on owning arrays; every type on every kind of view
+            (c(MinFields=1, MaxFields=1, MaxDepth=1), "sweep"),
+            (c(MinFields=1, MaxFields=1, MaxDepth=1, Layouts=VIEWS, Spells={"<", ">"}), "vsweep"),
+            # chains of two conversions: owning arrays of <= 2 fields; views (first step in place, so that the second
+            # conversion is applied to the same view)
+            (c(MinFields=1, MaxFields=2, MaxDepth=2), 1),
+            (c(MinFields=1, MaxFields=1, MaxDepth=2, Layouts=VIEWS, Spells={">", "="}, InplaceFirst=True), 1),
+            # wider tables, one step
+            (c(MinFields=3, MaxFields=3, MaxDepth=1), 2),
+            (c(MinFields=2, MaxFields=3, MaxDepth=1, Kinds={"M", "S", "N"}, Layouts=VIEWS, Spells={"<", ">"}), 1),
         ]
     return [
-        (dict(MinFields=1, MaxFields=1, WithPlain=True, Spells=allsp, MaxDepth=1), "sweep"),
-        (dict(MinFields=1, MaxFields=3, WithPlain=True, Spells={"<", ">"}, MaxDepth=3), 1),
-        (dict(MinFields=1, MaxFields=3, WithPlain=True, Spells={"=", "|"}, MaxDepth=2), 1),
+        (c(MinFields=1, MaxFields=1, MaxDepth=1), "sweep"),
+        (c(MinFields=1, MaxFields=1, MaxDepth=1, Layouts=VIEWS), "vsweep*"),
+        (c(MinFields=1, MaxFields=3, MaxDepth=3, Kinds=FLAT, Spells={"<", ">"}), 1),
+        (c(MinFields=1, MaxFields=3, MaxDepth=2, Spells={"=", "|"}), 1),
+        (c(MinFields=1, MaxFields=2, MaxDepth=3, Need={"N"}, Spells={"<", ">"}), 1),
+        (c(MinFields=1, MaxFields=1, MaxDepth=3, Layouts=VIEWS, Spells={">"}, InplaceFirst=True), 1),
+        (c(MinFields=1, MaxFields=2, MaxDepth=2, Layouts=VIEWS, InplaceFirst=True), 1),
+        (c(MinFields=3, MaxFields=3, MaxDepth=1, Layouts=VIEWS), 1),
     ]
 
 
+def describe(c):
+    return "fields %d..%d%s kinds %s%s spells %s layouts %s depth %d%s" % (
+        c["MinFields"], c["MaxFields"], "+plain" if c["WithPlain"] else "", "".join(sorted(c["Kinds"])),
+        (" incl. " + "".join(sorted(c["Need"]))) if c["Need"] else "", "".join(sorted(c["Spells"])),
+        "contig" if c["Layouts"] == {"contig"} else "views" if c["Layouts"] == VIEWS else ",".join(sorted(c["Layouts"])),
+        c["MaxDepth"], " (in place before the last step)" if c["InplaceFirst"] else "")
+
+
 THEOREMS = ["SpecAccepted", "InitAccepted", "ValuePreservedThm", "ValueCorrectThm", "DeclaredThm", "IdempotentThm",
-            "SwapTwiceThm", "AliasThm", "UniformInv", "UntouchedThm", "MechRefines"]
-ACTIONS = ["ChooseKinds", "ChooseSpell", "ToNative", "ToBig", "ToLittle", "Swap", "RecfileNativeInplace"]
+            "SwapTwiceThm", "AliasThm", "UniformInv", "UntouchedThm", "RestThm", "MechRefines"]
+ACTIONS = ["ChooseKinds", "ChooseSpell", "ChooseLayout", "ToNative", "ToBig", "ToLittle", "Swap", "RecfileNativeInplace"]
+MECH = dict(FixedDetect=True, NestedDetect=True, RetypeAlways=True)
 
 
-def sweep_concs(init):
-    """every concrete type of the kind x every array shape (plain arrays, one step)"""
+def sweep_concs(init, mode, salt):
+    """concretisation numbers of a one-step case: every concrete type of the kind x every array shape ("sweep"), or every
+    type with layout variant and shape rotating ("vsweep"), or every type x layout variant ("vsweep*")"""
     cat = TYPES[init["kinds"][0]]
-    return [s + len(SHAPES) * t for t in range(len(cat)) for s in range(len(SHAPES))]
+    lay = init["layout"]
+    nsh, nv = len(LSHAPES[lay]), NVAR[lay]
+    if mode == "sweep":
+        return [s + nsh * (t + 13 * v) for v in range(nv) for t in range(len(cat)) for s in range(nsh)]
+    out = []
+    for t in range(len(cat)):
+        for v in (range(nv) if mode == "vsweep*" else [(t + salt) % nv]):
+            q = next(x for x in range(13 * v, 13 * v + 13) if x % len(cat) == t) if len(cat) < 13 else t + 13 * v
+            out.append((t + v + salt) % nsh + nsh * q)
+    return out
 
 
 def random_chains(rng, n, start_id):
-    """longer chains on wider tables (code -> spec only)"""
+    """longer chains on wider tables in every layout (code -> spec only)"""
     out = []
     for k in range(n):
         plain = rng.random() < 0.2
         nf = 1 if plain else rng.choice([1, 2, 3, 4, 5, 6, 8])
-        kinds = [rng.choice(["M", "M", "B", "S"]) for _ in range(nf)]
-        init = {"plain": plain, "kinds": kinds, "spell": rng.choice(["<", ">", "=", "|"])}
+        kinds = [rng.choice(["M", "M", "B", "S"] if plain else ["M", "M", "B", "S", "N"]) for _ in range(nf)]
+        init = {"plain": plain, "kinds": kinds, "spell": rng.choice(["<", ">", "=", "|"]),
+                "layout": rng.choice(LAYOUTS + ["contig"])}
         ops = []
         for _ in range(rng.choice([1, 2, 4, 6, 8])):
             fn = rng.choice(["native", "big", "little", "swap", "swap", "rnative"])
             if fn == "rnative":
                 ops.append({"fn": fn, "inplace": True, "keep": False})
             else:
-                ops.append({"fn": fn, "inplace": rng.random() < 0.5, "keep": rng.random() < 0.3})
+                ops.append({"fn": fn, "inplace": rng.random() < 0.6, "keep": rng.random() < 0.3})
         out.append((start_id + k, init, ops, rng.randrange(0, 10 ** 6)))
     return out
 
 
+def _count(ctx, r):
+    ctx.count({"init": r["kinds"], "plain": r["plain"], "spell": r["spell"], "layout": [r["layout"], r["variant"]], "ops": r["ops"],
+               "dtype": r["dtype"], "shape": r["shape"]})
+
+
 def run(ctx):
-    only = getattr(ctx, "only", None)
-    # 1. the specification itself: theorems + mechanism refinement on every behaviour (both machine orders)
-    depth = 2 if ctx.quick else 3
-    full = dict(MinFields=1, MaxFields=3, WithPlain=True, Spells={"<", ">", "=", "|"}, MaxDepth=depth,
-                FixedDetect=True, DoExport=False)
-    ctx.tlc("ByteOrderMC.tla", what="theorems + mechanism refines property (this machine's order)",
+    from concurrent.futures import ThreadPoolExecutor
+    # 1. the specification itself: theorems + mechanism refinement on every behaviour (both machine orders).
+    #    The layout enters the property only through the frame (RestThm) and the mechanism only through numpy's
+    #    contiguity flags, so the deep runs use one layout of each contiguity class and a shallow run uses all.
+    three = {"contig", "strided", "recview"}
+    full = dict(BASE, MinFields=1, MaxFields=2 if ctx.quick else 2, MaxDepth=2 if ctx.quick else 3, Layouts=three,
+                DoExport=False, **MECH)
+    wide = dict(full, MinFields=3, MaxFields=3, MaxDepth=1 if ctx.quick else 2, Layouts=set(LAYOUTS))
+    ctx.tlc("ByteOrderMC.tla", what="theorems + mechanism refines property (this machine's order, chains)",
             cfg_text=cfg(constants=dict(full, MachineLE=MACHINE_LE), invariants=THEOREMS),
             workers=16, require=ACTIONS, timeout=3000)
+    ctx.tlc("ByteOrderMC.tla", what="theorems + mechanism refines property (this machine's order, 3 fields, all layouts)",
+            cfg_text=cfg(constants=dict(wide, MachineLE=MACHINE_LE), invariants=THEOREMS),
+            workers=16, require=ACTIONS, timeout=3000)
     ctx.tlc("ByteOrderMC.tla", what="theorems + mechanism refines property (other machine order)",
-            cfg_text=cfg(constants=dict(full, MachineLE=not MACHINE_LE, MaxDepth=2, MaxFields=2 if ctx.quick else 3),
+            cfg_text=cfg(constants=dict(full, MachineLE=not MACHINE_LE, MaxDepth=2, Layouts={"strided"} if ctx.quick else {"contig", "strided"},
+                                        MaxFields=2 if ctx.quick else 3),
                          invariants=THEOREMS),
             workers=16, require=ACTIONS, timeout=3000)
-    # 1b. non-vacuity of MechRefines: the pinned decision (fields without byte order are decisive) violates it
-    rb = ctx.tlc("ByteOrderMC.tla", what="self-test: unrepaired order detection violates MechRefines",
-                 cfg_text=cfg(constants=dict(full, MachineLE=MACHINE_LE, MaxFields=2, MaxDepth=1, FixedDetect=False),
-                              invariants=["MechRefines"]),
-                 workers=4, allow_violation=True, coverage=False)
-    if "MechRefines" not in rb.violated:
-        raise MachineryError("self-test failed: MechRefines not violated by the deviating mechanism")
+    # 1b. non-vacuity of MechRefines: each deviating mechanism variant violates it
+    small = dict(full, MachineLE=MACHINE_LE, MaxFields=2, MaxDepth=1)
+    for what, dev in (("unrepaired order detection (fields without byte order decisive)", dict(FixedDetect=False)),
+                      ("order detection blind to nested records", dict(NestedDetect=False)),
+                      ("dtype assigned only to contiguous arrays, a re-typed view returned otherwise", dict(RetypeAlways=False))):
+        rb = ctx.tlc("ByteOrderMC.tla", what="self-test: %s violates MechRefines" % what,
+                     cfg_text=cfg(constants=dict(small, **dev), invariants=["MechRefines"]),
+                     workers=4, allow_violation=True, coverage=False)
+        if "MechRefines" not in rb.violated:
+            raise MachineryError("self-test failed: MechRefines not violated by the deviating mechanism (%s)" % what)
     # 2. export every behaviour (spec -> code)
-    jobs = []
-    nexported = 0
-    for consts, repl in model_runs(ctx.tier):
-        r = ctx.tlc("ByteOrderMC.tla", what="export chains %s" % {k: (sorted(v) if isinstance(v, set) else v) for k, v in consts.items()},
-                    cfg_text=cfg(constants=dict(consts, MachineLE=MACHINE_LE, FixedDetect=True, DoExport=True),
+    runs = model_runs(ctx.tier)
+
+    def export(consts):
+        r = ctx.tlc("ByteOrderMC.tla", what="export chains: " + describe(consts),
+                    cfg_text=cfg(constants=dict(consts, MachineLE=MACHINE_LE, DoExport=True, **MECH),
                                  constraints=["Export"]), workers=1, coverage=False, timeout=3000)
         cases = r.records.get("CASE", [])
         if not cases:
             raise MachineryError("no chains exported for %s" % consts)
+        return cases
+    with ThreadPoolExecutor(4) as ex:
+        exported = list(ex.map(export, [c for c, _ in runs]))
+    jobs = []
+    nexported = 0
+    seen_layouts = set()
+    for (consts, repl), cases in zip(runs, exported):
         nexported += len(cases)
-        for c in cases:
-            concs = sweep_concs(c["init"]) if repl == "sweep" else [len(jobs) * 7 + 13 * j for j in range(repl)]
+        cases.sort(key=lambda c: json.dumps(c, sort_keys=True))      # TLC's print order is not part of the case
+        for ci, c in enumerate(cases):
+            seen_layouts.add(c["init"]["layout"])
+            concs = sweep_concs(c["init"], repl, ci) if isinstance(repl, str) else [len(jobs) * 7 + 13 * j for j in range(repl)]
             for conc in concs:
                 jobs.append((len(jobs) + 1, c["init"], c["ops"], conc))
+    if seen_layouts != set(LAYOUTS):
+        raise MachineryError("layouts exported %s, expected all of %s" % (sorted(seen_layouts), LAYOUTS))
     ctx.log("replaying %d chains (%d exported behaviours)" % (len(jobs), nexported))
     recs = pmap(run_chain, jobs)
     for r in recs:
-        ctx.count({"init": r["kinds"], "plain": r["plain"], "spell": r["spell"], "ops": r["ops"], "dtype": r["dtype"], "shape": r["shape"]})
+        _count(ctx, r)
     for r in recs[:: max(1, len(recs) // 4)][:4]:
-        ctx.sample({"dtype": r["dtype"], "shape": r["shape"], "ops": r["ops"],
-                    "observed_after_each_step": [{"res": s["res"], "current": s["arrs"][s["res"] - 1]} for s in r["st"]]})
-    chunk = 40000
+        ctx.sample({"dtype": r["dtype"], "shape": r["shape"], "layout": r["layout"], "ops": r["ops"],
+                    "observed_after_each_step": [{"res": s["res"], "rest": s["rest"], "current": s["arrs"][s["res"] - 1]} for s in r["st"]]})
+    chunk = 50000
     rejected = set()
     pending = []
     for i in range(0, len(recs), chunk):
@@ -380,19 +648,20 @@ def run(ctx):
     nrand = 1500 if ctx.quick else 30000
     rrecs = pmap(run_chain, random_chains(random.Random(ctx.seed), nrand, len(recs) + 1))
     for r in rrecs:
-        ctx.count({"init": r["kinds"], "plain": r["plain"], "spell": r["spell"], "ops": r["ops"], "dtype": r["dtype"], "shape": r["shape"]})
+        _count(ctx, r)
     for i in range(0, len(rrecs), chunk):
         judge(ctx, rrecs[i:i + chunk], "judge seeded longer chains %d.. (ByteOrderTrace)" % (i + 1), pending)
     flush(ctx, pending)
     # 4. binding self-test: corrupted observations must be rejected, each by the clause it breaks
     selftest(ctx, [r for r in recs if r["id"] not in rejected])
     ctx.rule = ("every chain of conversions exported from ByteOrderMC.tla (%s), each executed on a real array whose field types, "
-                "sub-array shapes and array shape (0-d..2-d) rotate through the catalogue (%d multi-byte, %d single-byte, %d string "
-                "types); one-step chains on plain arrays are run for every type x shape; plus %d seeded chains of up to 8 steps on "
-                "tables of up to 8 fields; a case is distinct by (abstract array, chain, concrete dtype, shape) and non-trivial always"
-                % ("; ".join("fields %d..%d%s spells %s depth %d" % (c["MinFields"], c["MaxFields"], "+plain" if c["WithPlain"] else "",
-                                                                      "".join(sorted(c["Spells"])), c["MaxDepth"]) for c, _ in model_runs(ctx.tier)),
-                   len(MULTI), len(SINGLE), len(STRS), nrand))
+                "sub-array shapes, array shape (0-d..2-d) and layout variant rotate through the catalogue (%d multi-byte, %d single-byte, "
+                "%d string types, nested records; layouts %s with %d concrete variants); one-step chains on one-field arrays are run for "
+                "every type x shape (owning arrays) and every type (views); plus %d seeded chains of up to 8 steps on tables of up to 8 "
+                "fields in every layout; a case is distinct by (abstract array, chain, concrete dtype, shape, layout variant) and "
+                "non-trivial always"
+                % ("; ".join(describe(c) for c, _ in runs), len(MULTI), len(SINGLE), len(STRS), ", ".join(LAYOUTS),
+                   sum(NVAR.values()), nrand))
     ctx.exhaustive = True
     ctx.note(exported_behaviours=nexported, replayed_chains=len(recs), seeded_chains=nrand, machine_little_endian=MACHINE_LE,
              numpy_version=np.__version__)
@@ -401,18 +670,24 @@ def run(ctx):
         "keep_dtype=True is read as: the bytes are converted exactly as without it and the dtype is left as it was",
         "the statement's idempotence / swap-twice clauses are theorems of the specification (TLC) and the code is bound to it step by step; they are also compared on byte digests when both steps conform",
         "numpy canonicalises '<'/'>' to '=' for the machine's own order, so on one machine only three of the four declared-order characters can be observed on a dtype; the specification is checked for both machine orders",
+        "the statement does not restrict the memory layout of the array: all clauses are demanded of strided / reversed / column / F-ordered / 0-d / record-field views, and 'in the caller's buffer' is read with its frame (bytes of the parent buffer that are not elements of the array, and the parent's dtype, stay)",
+        "a nested record counts as a structured field whose multi-byte members share the table's order; descriptor helpers are judged on flat descriptors only",
     ]
 
 
 def selftest(ctx, recs):
     import copy
-    base = next(r for r in recs if not r["plain"] and "M" in r["kinds"] and len(r["ops"]) >= 1
-                and not r["ops"][0]["keep"] and not r["ops"][0]["inplace"] and r["ops"][0]["fn"] == "native"
-                and all(s["err"] == "none" for s in r["st"]))
+    ok = lambda r: all(s["err"] == "none" for s in r["st"])   # noqa
+    base = next((r for r in recs if not r["plain"] and "M" in r["kinds"] and len(r["ops"]) >= 1
+                 and not r["ops"][0]["keep"] and not r["ops"][0]["inplace"] and r["ops"][0]["fn"] == "native" and ok(r)), None)
+    # an in-place conversion of a non-contiguous window
+    vbase = next((r for r in recs if r["layout"] in NONCONTIG and len(r["ops"]) >= 1 and r["ops"][0]["inplace"] and ok(r)), None)
+    if base is None or vbase is None:
+        raise MachineryError("binding self-test: no accepted record to corrupt")
     m = base["kinds"].index("M")
 
-    def variant(i, f):
-        v = copy.deepcopy({k: base[k] for k in ("id", "kinds", "spell", "ops", "st")})
+    def variant(b, i, f):
+        v = copy.deepcopy({k: b[k] for k in TRACE_KEYS})
         v["ops"] = v["ops"][:1]
         v["st"] = v["st"][:2]
         v["id"] = i
@@ -420,25 +695,38 @@ def selftest(ctx, recs):
         return v
 
     cur = lambda v: v["st"][1]["arrs"][v["st"][1]["res"] - 1]   # noqa
+
+    def as_view(v):
+        # what a re-typed view would look like: a second object on the same buffer, the argument keeping its dtype
+        s0, s1 = v["st"][0], v["st"][1]
+        new = copy.deepcopy(s1["arrs"][0])
+        s1["arrs"][0]["decl"] = list(s0["arrs"][0]["decl"])
+        s1["arrs"].append(new)
+        s1["res"] = 2
+
     probes = [
-        ("declared_order", lambda v: cur(v)["decl"].__setitem__(m, ">" if MACHINE_LE else "<")),
-        ("value_preserved", lambda v: cur(v)["phys"].__setitem__(m, "corrupt")),
-        ("copy_independent", lambda v: cur(v).__setitem__("grp", 1)),
-        ("argument_modified", lambda v: v["st"][1]["arrs"][0].__setitem__("hash", "0" * 12)),
-        ("field_structure", lambda v: cur(v).__setitem__("sig", "x")),
-        ("is_big_endian", lambda v: v["st"][1]["pred"]["big"].__setitem__(m, not v["st"][1]["pred"]["big"][m])),
+        (base, "declared_order", lambda v: cur(v)["decl"].__setitem__(m, ">" if MACHINE_LE else "<")),
+        (base, "value_preserved", lambda v: cur(v)["phys"].__setitem__(m, "corrupt")),
+        (base, "copy_independent", lambda v: cur(v).__setitem__("grp", 1)),
+        (base, "argument_modified", lambda v: v["st"][1]["arrs"][0].__setitem__("hash", "0" * 12)),
+        (base, "field_structure", lambda v: cur(v).__setitem__("sig", "x")),
+        (base, "is_big_endian", lambda v: v["st"][1]["pred"]["big"].__setitem__(m, not v["st"][1]["pred"]["big"][m])),
+        (vbase, "parent_buffer_rest_untouched", lambda v: v["st"][1].__setitem__("rest", "changed")),
+        (vbase, "inplace_returns_argument", as_view),
+        (vbase, "init_mismatch", lambda v: v["st"][0]["lay"].__setitem__("cc", True)),
     ]
-    vs = [variant(100 + i, f) for i, (_, f) in enumerate(probes)] + [variant(99, lambda v: None)]
+    vs = [variant(b, 100 + i, f) for i, (b, _, f) in enumerate(probes)] + [variant(base, 98, lambda v: None),
+                                                                            variant(vbase, 99, lambda v: None)]
     saved = ctx.traces
     rej = tracecheck.validate(ctx, "ByteOrderTrace.tla", vs, what="self-test: corrupted observations rejected",
                               constants={"MachineLE": MACHINE_LE}, workers=1)
     ctx.traces = saved
-    for i, (clause, _) in enumerate(probes):
+    for i, (_, clause, _) in enumerate(probes):
         got = [x.split(":", 1)[1] for x in rej.get(100 + i, [])]
         if clause not in got:
             raise MachineryError("binding self-test failed: corruption of %s not rejected (got %s)" % (clause, rej.get(100 + i)))
-    if 99 in rej:
-        raise MachineryError("binding self-test failed: an accepted record is rejected when judged again (%s)" % rej[99])
+    if 98 in rej or 99 in rej:
+        raise MachineryError("binding self-test failed: an accepted record is rejected when judged again (%s)" % (rej.get(98) or rej.get(99)))
 
 
 def replay(ctx, case):
